@@ -32,24 +32,24 @@ func TestMain(m *testing.M) {
 // recording backend
 
 type BackendScript struct {
-	Status    int         `json:"status"`
-	Header    [][2]string `json:"header"`
-	Chunks    [][]byte    `json:"chunks"`
-	Flush     []bool      `json:"flush"`
-	Announced [][2]string `json:"announced,omitempty"`   // trailers declared in the Trailer header
+	Status      int         `json:"status"`
+	Header      [][2]string `json:"header"`
+	Chunks      [][]byte    `json:"chunks"`
+	Flush       []bool      `json:"flush"`
+	Announced   [][2]string `json:"announced,omitempty"`   // trailers declared in the Trailer header
 	Unannounced [][2]string `json:"unannounced,omitempty"` // trailers sent with the http.TrailerPrefix mechanism
 }
 
 type seen struct {
-	Method     string
-	Path       string
-	EscPath    string
-	RawQuery   string
-	Host       string
-	Header     http.Header
-	Body       []byte
-	BodyErr    string
-	Attempt    int
+	Method   string
+	Path     string
+	EscPath  string
+	RawQuery string
+	Host     string
+	Header   http.Header
+	Body     []byte
+	BodyErr  string
+	Attempt  int
 }
 
 var (
@@ -141,8 +141,8 @@ func setupBackend() {
 // ---------------------------------------------------------------------------
 
 type Rule struct {
-	Dir   string `json:"dir"`   // upstream | downstream
-	Op    string `json:"op"`    // set | add | del | regex
+	Dir   string `json:"dir"` // upstream | downstream
+	Op    string `json:"op"`  // set | add | del | regex
 	Name  string `json:"name"`
 	Value string `json:"value"`
 	Re    string `json:"re,omitempty"`
@@ -158,12 +158,12 @@ type Upstream struct {
 }
 
 type Req struct {
-	Method  string         `json:"method"`
-	Target  string         `json:"target"`
-	Header  [][2]string    `json:"header"`
-	BodyLen int            `json:"body_len"`
-	Chunks  []int          `json:"chunks,omitempty"`
-	Script  BackendScript  `json:"script"`
+	Method  string        `json:"method"`
+	Target  string        `json:"target"`
+	Header  [][2]string   `json:"header"`
+	BodyLen int           `json:"body_len"`
+	Chunks  []int         `json:"chunks,omitempty"`
+	Script  BackendScript `json:"script"`
 }
 
 type Case struct {
